@@ -1345,18 +1345,23 @@ StylesheetExecutionContextDefault::returnXResultTreeFrag(XResultTreeFrag*   theX
         XalanDocumentFragment* const    theDocumentFragment =
             theXResultTreeFrag->release();
 
-        const KeyTablesTableType::iterator  i =
-            m_keyTables.find(theDocumentFragment);
-
-        if (i != m_keyTables.end())
+        // This is called from destructors, and find()/end() would
+        // allocate in a table that was never used.
+        if (m_keyTables.empty() == false)
         {
-            KeyTable* const     theTable = (*i).second;
+            const KeyTablesTableType::iterator  i =
+                m_keyTables.find(theDocumentFragment);
 
-            m_keyTables.erase(i);
+            if (i != m_keyTables.end())
+            {
+                KeyTable* const     theTable = (*i).second;
 
-            theTable->~KeyTable();
+                m_keyTables.erase(i);
 
-            m_keyTables.getMemoryManager().deallocate((void*)theTable);
+                theTable->~KeyTable();
+
+                m_keyTables.getMemoryManager().deallocate((void*)theTable);
+            }
         }
 
         m_xresultTreeFragAllocator.destroy(theXResultTreeFrag);
@@ -2608,7 +2613,7 @@ StylesheetExecutionContextDefault::clearXPathCache()
 
     assert(m_matchPatternCache.empty() == true || m_xsltProcessor != 0);
 
-    if (m_xsltProcessor != 0)
+    if (m_xsltProcessor != 0 && m_matchPatternCache.empty() == false)
     {
         for_each(m_matchPatternCache.begin(),
                  m_matchPatternCache.end(),
@@ -2701,11 +2706,14 @@ StylesheetExecutionContextDefault::cleanUpTransients()
     m_outputStreams.clear();
 
     // Clean up the key table vector
-    for_each(m_keyTables.begin(),
-             m_keyTables.end(),
-             makeMapValueDeleteFunctor(m_keyTables));
+    if (m_keyTables.empty() == false)
+    {
+        for_each(m_keyTables.begin(),
+                 m_keyTables.end(),
+                 makeMapValueDeleteFunctor(m_keyTables));
 
-    m_keyTables.clear();
+        m_keyTables.clear();
+    }
 
     m_countersTable.reset();
 
